@@ -114,6 +114,17 @@ CLAIMS = {
             TB + "; bounded in the NUMBER of entries at L1 (<= 3), unbounded in sizes; list.sort executed natively (forking "
                  "comparisons)",
             "deductive: AST->VC with native symbolic execution of the sort/merge loops (LIA over lengths), z3; bounded monitor"),
+    "C11": ("proof",
+            "representation invariant (at most one configuration) + per-operation contracts on the real code: "
+            "_get_config_ndx by loop contract for ANY number of components (first configuration index or KeyError exactly "
+            "when there is none, components without TYPE tag skipped), set_config for files of 0..3 components with symbolic "
+            "tag presence/values (others untouched and in order, one configuration last, blob from the new configuration "
+            "only, comments untouched), derive_comments_from_config (derived keys depend on the configuration only, others "
+            "untouched), derive_auth_blocks_from_config (exactly the requested kinds, code + version, idempotent); bounded "
+            "monitor: all operation sequences up to length 3 and random ones up to 5 against an abstract model",
+            "DESIGN.md section 9 C11",
+            TB + "; conf_dict_to_tlv and ConfigId by contract in the L1 part; set_config bounded to <= 3 components at L1",
+            "deductive: AST->VC (loop contract with arbitrary-index invariant, object identity frames), z3; bounded monitor"),
 }
 
 NA_DEFAULT = "check not built yet (construction in progress, see DESIGN.md section 14)"
